@@ -69,6 +69,10 @@ def _err(x):
 _NONE = ("agg", "std::option::Option", "None", ())
 _O, _R = "std::option::Option::<T>::", "std::result::Result::<T, E>::"
 # combinator -> what it does per variant of its receiver: ("value", f(payload, args)) | ("call", closure arg index) | ("wrapcall", index, wrapper)
+def last_seg_(p):
+    return p.rsplit("::", 1)[-1]
+
+
 LOWERABLE = {
     _O + "map": {"on": "opt", "arms": {"Some": ("wrapcall", 1, _some), "None": ("value", lambda p, a: _NONE)}},
     _O + "map_or": {"on": "opt", "arms": {"Some": ("call", 2), "None": ("value", lambda p, a: a[1])}},
@@ -436,6 +440,18 @@ class PathEnum:
                         ct = ("agg", "std::ops::ControlFlow", "Continue", (("payload", args[0]),))
                     elif known == "break":
                         ct = ("agg", "std::ops::ControlFlow", "Break", (("residual", args[0]),))
+                elif path in ("std::result::Result::<T, E>::is_ok", "std::result::Result::<T, E>::is_err", "std::option::Option::<T>::is_some", "std::option::Option::<T>::is_none") and len(args) == 1:
+                    # a variant test of a value whose variant an earlier match on this path already established
+                    x0 = args[0]
+                    while x0[0] in ("ref", "deref"):
+                        x0 = x0[1]
+                    known = None
+                    if x0[0] == "agg" and x0[2] in ("Ok", "Err", "Some", "None"):
+                        known = "continue" if x0[2] in ("Ok", "Some") else "break"
+                    elif x0[0] != "agg":
+                        known = self._known_variant(conds, events, x0, "std::result::Result" if "Result" in path else "std::option::Option")
+                    if known is not None:
+                        ct = ("const", (known == "continue") == (path.rsplit("::", 1)[-1] in ("is_ok", "is_some")))
                 elif path == "std::ops::FromResidual::from_residual" and args and args[0][0] == "agg" and args[0][2] == "Err":
                     ct = args[0]
                 elif path == "std::result::Result::<T, E>::map_err" and len(args) == 2 and args[0][0] == "agg" and args[0][2] in ("Ok", "Err") and adt_base(args[0][1]) == "std::result::Result":
@@ -447,6 +463,16 @@ class PathEnum:
                         a = self.facts.adts.get(adt)
                         if a is not None and any(v["name"] == var for v in a["variants"]):
                             ct = _err(("agg", adt, var, tuple(args[0][3])))
+                elif last_seg_(path) == "transpose" and path.startswith("std::option::Option") and len(args) == 1 and args[0][0] == "agg" and args[0][2] in ("Some", "None") and (args[0][2] == "None" or (args[0][3][0][0] == "agg" and args[0][3][0][2] in ("Ok", "Err")) or (_under_map_err(args[0][3][0])[0] == "call" and _under_map_err(args[0][3][0])[1] == "std::ops::FromResidual::from_residual")):
+                    # Option<Result<T, E>>::transpose on a literal (the value `opt.map(|x| -> Result ..)` traversed inline produced)
+                    if args[0][2] == "None":
+                        ct = _ok(("agg", "std::option::Option", "None", ()))
+                    elif args[0][3][0][0] != "agg":
+                        ct = args[0][3][0]      # Some(a propagated residual): the Err itself
+                    elif args[0][3][0][2] == "Ok":
+                        ct = _ok(("agg", "std::option::Option", "Some", tuple(args[0][3][0][3])))
+                    else:
+                        ct = args[0][3][0]
                 elif path in ("std::option::Option::<T>::ok_or",) and len(args) == 2 and args[0][0] == "agg" and args[0][2] in ("Some", "None"):
                     # ok_or on a literal Option (the result of a combinator traversed inline)
                     ct = _ok(args[0][3][0]) if args[0][2] == "Some" else _err(args[1])
